@@ -136,6 +136,7 @@ func cmdCheck(args []string) int {
 		return 2
 	}
 	p.seed = seed
+	p.curProp = *prop
 	var findings []KnownFinding
 	if b, err := os.ReadFile(*known); err == nil {
 		if err := json.Unmarshal(b, &findings); err != nil {
